@@ -430,7 +430,7 @@ func tryWitness(rf *ReplayFile, r *OblResult, rep *FuncReport, dir string) {
 				}
 			}
 			rf.Verdict = "witness " + filepath.Base(f) + " (" + label + ") does not fail on the real code"
-			return
+			break // try the next witness file bound to this obligation
 		}
 	}
 }
